@@ -118,8 +118,17 @@ func (ch *ConnectionHandler) multiplexToUpstream(multiplexChannel net.Conn) erro
 		}
 	}()
 
+	// The client's multiplexer only knows a stream it opens once its open call has returned, and silently
+	// drops frames for streams it does not know yet. Protocol selection starts with a write from our side,
+	// so wait for the opener's first byte (it sends its header without waiting for ours): by then its
+	// stream is registered and our header cannot be lost. The buffered reader stays in the read path.
+	buffered := streams.NewBufferedInputConnection(multiplexChannel)
+	if _, err := buffered.Reader.Peek(1); err != nil {
+		return errors.Wrapf(err, "Could not read from multiplex channel: %+v", err)
+	}
+
 	log.Tracef("[Server] Handle channel %v", multiplexChannel)
-	if err := mux.Handle(multiplexChannel); err != nil {
+	if err := mux.Handle(buffered); err != nil {
 		err = errors.Wrapf(err, "Could not handle multiplex channel: %+v", err)
 		return err
 	}
